@@ -69,6 +69,8 @@ type SvcOpts struct {
 	// DefaultEvents: the library's own TerminalEventer instead of the recording one (RACE mode only: the run is
 	// judged by the race detector, not by the history)
 	DefaultEvents bool `json:"default_events,omitempty"`
+	// Ext: the 0x0200 handler is the README's location type with the five vendor extension parsers (0x64..0x70)
+	Ext bool `json:"ext,omitempty"`
 }
 
 // KeyOfDigits is the session key the configured key function gives a terminal with these phone digits.
